@@ -1,0 +1,19 @@
+//go:build verif
+
+package codec
+
+// Verification hooks (build tag "verif" only). VerifHook, when set, is called at the
+// linearization-relevant points of the checksum-service registry:
+//
+//	"<Op>:enter"  before the operation takes the registry lock
+//	"<Op>:locked" after it has taken the lock, before its critical section
+//
+// A hook that blocks doubles as a scheduler gate for replaying model schedules.
+// Set VerifHook before starting the goroutines that use the registry.
+var VerifHook func(point string, name string)
+
+func verifPoint(point string, name string) {
+	if h := VerifHook; h != nil {
+		h(point, name)
+	}
+}
